@@ -51,6 +51,11 @@ CHECKS = {
    "Programs are drawn from the specification's own grammar with balanced odds for every line kind, so label resolution after directive removal and macro expansion, matcher resolution of every mov form, opcode-index assignment and literal import are exercised together on whole programs; the oracle is the specification's interpreter over the source text, which shares nothing with the assembler's passes.",
    "Programs of 8-10 lines over four registers, register sizes 8 and 16 (TLC integers are 32-bit), one macro without parameters (macro parameters are not substituted by the pinned tree), I/O lines on one port at least three lines apart (closer ones run into the recorded C04 findings); data sections, calls and fragments are not generated (fragments: C06). Trusted: TLC, the pretty-printer from the spec's lines to .basm text, the environment process of the harness.",
    "DESIGN.md §4 C05", "bmverif"),
+ "C06": ("model_checking",
+   "TLA+ spec FragGraph: a graph of fragment instances has a meaning Eval (dataflow value of every external output, arithmetic modulo 2^RSize) that does not mention processors; the action Remap changes the mapping of instances to processors (any partition, collapse lists in graph order, processor names permuted) and MappingIrrelevant (result' = result) is checked by TLC; TLC -simulate builds graphs and walks through mappings, each (graph, mapping) is printed as .basm text (fragments, fidef, filinkatt, cpdef fragcollapse), assembled by the real assembler, simulated by the real VM with the inputs held at each of three input vectors, and the settled external outputs compared with the specification's result",
+   "The oracle is the specification's direct evaluation of the graph, independent of fragmentComposer's register allocation, IO renumbering and bond creation; the same graph is replayed under several mappings including the two extremes, with fragments that reuse register names, use scratch registers, have several outputs, ports on unusual registers and internal labels, with fan-out of ports and of external inputs, and with graphs large enough for two-digit temporaries.",
+   "Graphs of 3-5 instances with every partition and name permutation reachable, and graphs of 26 instances with four fixed mappings (all-on-one, one-each reversed, odd/even, halves); 8 fragments; rsize 8 and 16; asynchronous I/O only (the composer's default), outputs read after they have been stable for 150 ticks. Trusted: TLC, the printer from the spec's graph to .basm text.",
+   "DESIGN.md §4 C06", "bmverif"),
  "C12": ("model_checking",
    "TLA+ spec BondgoSync (visitor / Var_assigner / Usage_Monitor over unbuffered channels) model-checked by TLC for deadlock freedom, termination under fairness, NotifiedBeforeExit and SameRequirements; the real compiler (verif build) run under schedules forced by delays at every hook point, hook logs and process outcomes trace-validated by TLC; TLA+ reference semantics GoSubset simulated by TLC to build programs with expected output streams, compiled by the real bondgo, simulated by the real VM and compared",
    "The protocol model explores every interleaving of the compiler's three goroutines and singles out the schedule that deadlocks a given ordering of the assigner's answer/notify pair; the real compiler is then driven into exactly those schedules (and the others reachable by delaying each synchronisation point), must terminate in all of them and must emit identical artefacts. Independently, programs drawn from the reference semantics are compiled and executed and their output streams must equal the specification's.",
